@@ -359,4 +359,116 @@ theorem set1_complete_gen (pf : Nat → Nat) (hpf : ∀ m, 1 < m → Nat.Prime (
       rw [← h4] at hd
       exact (prime_dvd_prodPow_iff fs h2 p hp).1 hd
 
+/-- contract of the curves of `Lenstra` one would like: a non-trivial divisor of every composite -/
+def EcmFull (ecm : Int → Int) : Prop :=
+  ∀ m : Int, 3 ≤ m → ¬ Nat.Prime m.toNat → 1 < ecm m ∧ ecm m < m ∧ ecm m ∣ m
+
+/-- what the curves of the code as it is can end with: the failure value -1, or a divisor > 1 — possibly `m` itself (every
+    prime factor met in the same step: the gcd of the accumulated product is `m`) -/
+def EcmObserved (ecm : Int → Int) : Prop :=
+  ∀ m : Int, 3 ≤ m → ecm m = -1 ∨ (1 < ecm m ∧ ecm m ≤ m ∧ ecm m ∣ m)
+
+theorem lenstra_full (isp : Int → Bool) (hisp : ∀ n : Int, isp n = true ↔ Nat.Prime n.toNat)
+    (ecm : Int → Int) (hecm : EcmFull ecm) (n : Int) (hn : 3 ≤ n) :
+    lenstra isp ecm n ∣ n ∧ 1 < lenstra isp ecm n ∧ lenstra isp ecm n ≤ n ∧ (¬ Nat.Prime n.toNat → lenstra isp ecm n < n) := by
+  unfold lenstra
+  have h3 : ¬ n < 3 := by omega
+  simp only [h3, ↓reduceIte]
+  by_cases hp : isp n = true
+  · simp only [hp, ↓reduceIte]
+    exact ⟨Int.dvd_refl n, by omega, Int.le_refl n, fun h => absurd ((hisp n).1 hp) h⟩
+  · simp only [hp, Bool.false_eq_true, ↓reduceIte]
+    have hnp : ¬ Nat.Prime n.toNat := fun h => hp ((hisp n).2 h)
+    have n2 : n ≠ 2 := by omega
+    have n3 : n ≠ 3 := by
+      intro h; apply hnp; rw [h]; exact Nat.prime_three
+    by_cases h2 : n % 2 = 0
+    · simp only [h2, ↓reduceIte]
+      exact ⟨Int.dvd_of_emod_eq_zero h2, by omega, by omega, fun _ => by omega⟩
+    · simp only [h2, ↓reduceIte]
+      by_cases h3' : n % 3 = 0
+      · simp only [h3', ↓reduceIte]
+        exact ⟨Int.dvd_of_emod_eq_zero h3', by omega, by omega, fun _ => by omega⟩
+      · simp only [h3', ↓reduceIte]
+        obtain ⟨a, b, c⟩ := hecm n hn hnp
+        exact ⟨c, a, by omega, fun _ => b⟩
+
+theorem factorLen_full (isp : Int → Bool) (hisp : ∀ n : Int, isp n = true ↔ Nat.Prime n.toNat)
+    (ecm : Int → Int) (hecm : EcmFull ecm) (n : Int) (hn : 1 < n) :
+    factorLen isp ecm n ∣ n ∧ 1 < factorLen isp ecm n ∧ factorLen isp ecm n ≤ n ∧
+      (¬ Nat.Prime n.toNat → factorLen isp ecm n < n) := by
+  unfold factorLen factor
+  by_cases h1 : Int.gcd n (PROD_first_primes : Int) = 1
+  · simp only [h1, ↓reduceIte]
+    by_cases h2 : Int.gcd n (PROD_second_primes : Int) = 1
+    · simp only [h2, ↓reduceIte]
+      by_cases h3 : n < 3
+      · exfalso
+        have : n = 2 := by omega
+        subst this
+        revert h1; decide
+      · exact lenstra_full isp hisp ecm hecm n (by omega)
+    · simp only [h2, ↓reduceIte]
+      rw [← secondList_prod] at h2
+      obtain ⟨hc, hd⟩ := cascade_full n hn secondPrimesOrder 73 secondList_prime h2
+      obtain ⟨a, b, c⟩ := prime_divisor_bounds hn hc hd
+      exact ⟨hd, a, b, c⟩
+  · simp only [h1, ↓reduceIte]
+    rw [← firstList_prod] at h1
+    obtain ⟨hc, hd⟩ := cascade_full n hn firstPrimesOrder 13 firstList_prime h1
+    obtain ⟨a, b, c⟩ := prime_divisor_bounds hn hc hd
+    exact ⟨hd, a, b, c⟩
+
+/-- what holds for the curves as they are: the failure value, or a divisor > 1 that may be `n` itself -/
+theorem factorLen_partial (isp : Int → Bool) (_hisp : ∀ n : Int, isp n = true ↔ Nat.Prime n.toNat)
+    (ecm : Int → Int) (hecm : EcmObserved ecm) (n : Int) (hn : 1 < n) :
+    factorLen isp ecm n = -1 ∨ (factorLen isp ecm n ∣ n ∧ 1 < factorLen isp ecm n ∧ factorLen isp ecm n ≤ n) := by
+  unfold factorLen factor
+  by_cases h1 : Int.gcd n (PROD_first_primes : Int) = 1
+  · simp only [h1, ↓reduceIte]
+    by_cases h2 : Int.gcd n (PROD_second_primes : Int) = 1
+    · simp only [h2, ↓reduceIte]
+      unfold lenstra
+      by_cases h3 : n < 3
+      · simp only [h3, ↓reduceIte]; exact Or.inr ⟨Int.dvd_refl n, hn, Int.le_refl n⟩
+      · simp only [h3, ↓reduceIte]
+        by_cases hp : isp n = true
+        · simp only [hp, ↓reduceIte]; exact Or.inr ⟨Int.dvd_refl n, hn, Int.le_refl n⟩
+        · simp only [hp, Bool.false_eq_true, ↓reduceIte]
+          by_cases h2' : n % 2 = 0
+          · simp only [h2', ↓reduceIte]; exact Or.inr ⟨Int.dvd_of_emod_eq_zero h2', by omega, by omega⟩
+          · simp only [h2', ↓reduceIte]
+            by_cases h3' : n % 3 = 0
+            · simp only [h3', ↓reduceIte]; exact Or.inr ⟨Int.dvd_of_emod_eq_zero h3', by omega, by omega⟩
+            · simp only [h3', ↓reduceIte]
+              rcases hecm n (by omega) with h | ⟨a, b, c⟩
+              · exact Or.inl h
+              · exact Or.inr ⟨c, a, b⟩
+    · simp only [h2, ↓reduceIte]
+      rw [← secondList_prod] at h2
+      obtain ⟨hc, hd⟩ := cascade_full n hn secondPrimesOrder 73 secondList_prime h2
+      obtain ⟨a, b, _⟩ := prime_divisor_bounds hn hc hd
+      exact Or.inr ⟨hd, a, b⟩
+  · simp only [h1, ↓reduceIte]
+    rw [← firstList_prod] at h1
+    obtain ⟨hc, hd⟩ := cascade_full n hn firstPrimesOrder 13 firstList_prime h1
+    obtain ⟨a, b, _⟩ := prime_divisor_bounds hn hc hd
+    exact Or.inr ⟨hd, a, b⟩
+
+theorem iffactorprimeL_full (isp : Int → Bool) (hisp : ∀ n : Int, isp n = true ↔ Nat.Prime n.toNat)
+    (ecmF : Nat → Int → Int) (hecmF : ∀ i, EcmFull (ecmF i)) (rho : Nat → Int → Int) (hrho : ∀ i, RhoFull (rho i))
+    (ecm : Int → Int) (n : Int) (hn : 1 < n) (fuel : Nat) (hfuel : n.toNat < fuel) :
+    ∃ r, iffactorprimeL isp ecmF rho ecm fuel n = some r ∧ Nat.Prime r.toNat ∧ r ∣ n ∧ 1 < r := by
+  unfold iffactorprimeL
+  obtain ⟨a, b, c, _⟩ := factorLen_full isp hisp (ecmF 0) (hecmF 0) n hn
+  have hne : factorLen isp (ecmF 0) n ≠ 1 := by omega
+  simp only [ne_eq, hne, not_false_eq_true, ↓reduceIte]
+  generalize factorLen isp (ecmF 0) n = r0 at a b c
+  by_cases hp : isp r0 = true
+  · simp only [hp, Bool.not_true, Bool.false_eq_true, ↓reduceIte]
+    exact ifpLoop_full isp hisp rho hrho ecm n fuel 2 r0 b (by omega) a
+  · simp only [hp, Bool.not_false, ↓reduceIte]
+    obtain ⟨a', b', c', _⟩ := factorLen_full isp hisp (ecmF 1) (hecmF 1) r0 b
+    exact ifpLoop_full isp hisp rho hrho ecm n fuel 2 _ b' (by omega) (Int.dvd_trans a' a)
+
 end Givaro.Lemmas.Primes
